@@ -7,7 +7,7 @@ and compared cell by cell with the SMT-LIB 2.6 lexicon (section 3.1).
 """
 import ast
 
-from ..astutil import call_name, walk_no_nested, is_const, kw
+from ..astutil import call_name, walk_no_nested, is_const, kw, opt_read
 from ..cfg import cfg_of
 from ..loader import Program, AnalysisError, unparse
 from ..report import Check
@@ -875,6 +875,119 @@ def rule_r5(chk, prog):
     chk.floor('C08.R5', 'call sites of parse_smtlib', ncall, 2)
 
 
+def rule_r7(chk, prog):
+    chk.rule('C08.R7', 'one lexer: a lexeme ends at the FIRST terminator '
+             '(searches for several terminators are never combined with '
+             'max()), and nobody but parse_smtlib interprets the raw text of '
+             'the input file')
+    m = prog.mod('nodeio')
+    f = m.func('parse_smtlib')
+    tp = f.args.args[0].arg
+    defs = {}
+    for st in walk_no_nested(f):
+        if isinstance(st, ast.Assign) and len(st.targets) == 1 and \
+                isinstance(st.targets[0], ast.Name):
+            defs.setdefault(st.targets[0].id, []).append(st.value)
+
+    def is_search(e, depth=0):
+        if isinstance(e, ast.Call) and isinstance(
+                e.func, ast.Attribute) and e.func.attr in (
+                    'find', 'index') and isinstance(
+                        e.func.value, ast.Name) and e.func.value.id == tp:
+            return True
+        if isinstance(e, ast.BinOp) and isinstance(e.op, (ast.Add, ast.Sub)):
+            return is_search(e.left, depth) or is_search(e.right, depth)
+        if isinstance(e, ast.Name) and depth < 2 and len(
+                defs.get(e.id, [])) == 1:
+            return is_search(defs[e.id][0], depth + 1)
+        return False
+
+    n = 0
+    for c in walk_no_nested(f):
+        if isinstance(c, ast.Call) and isinstance(
+                c.func, ast.Name) and c.func.id in ('max', 'min'):
+            srch = [a for a in c.args if is_search(a)]
+            if len(srch) >= 2:
+                n += 1
+                bad = c.func.id == 'max'
+                chk.check('C08.R7', 'nodeio.parse_smtlib', c, not bad,
+                          f'{unparse(c)} takes the LATER of the positions '
+                          'found: when both characters occur, the lexeme '
+                          'runs past the first terminator (a comment '
+                          'swallows the following lines up to the last '
+                          'carriage return / line feed found)',
+                          loc=m.loc(c), nontrivial=True)
+    # readers of the input file
+    nread = 0
+    for cm in prog.pkg_modules():
+        if 'tests' in cm.rel():
+            continue
+        for c in ast.walk(cm.tree):
+            if not (isinstance(c, ast.Call) and isinstance(
+                    c.func, ast.Attribute) and c.func.attr in (
+                        'read', 'readlines', 'readline') and not c.args):
+                continue
+            src = c.func.value
+            op = None
+            if isinstance(src, ast.Call) and (call_name(src) or '') in (
+                    'open', 'io.open'):
+                op = src
+            elif isinstance(src, ast.Name):
+                p = getattr(c, '_parent', None)
+                while p is not None and not isinstance(
+                        p, (ast.FunctionDef, ast.Module)):
+                    if isinstance(p, ast.With):
+                        for it in p.items:
+                            if isinstance(it.optional_vars, ast.Name) and \
+                                    it.optional_vars.id == src.id and \
+                                    isinstance(it.context_expr, ast.Call):
+                                op = it.context_expr
+                    p = getattr(p, '_parent', None)
+            if op is None or not op.args or opt_read(op.args[0]) != 'infile':
+                continue
+            nread += 1
+            par = getattr(c, '_parent', None)
+            ok = isinstance(par, ast.Call) and (call_name(par) or '').split(
+                '.')[-1] == 'parse_smtlib' and par.args and par.args[0] is c
+            fn = c
+            while fn is not None and not isinstance(
+                    fn, (ast.FunctionDef, ast.Module)):
+                fn = getattr(fn, '_parent', None)
+            if not ok and isinstance(par, ast.Assign) and len(
+                    par.targets) == 1 and isinstance(
+                        par.targets[0], ast.Name) and par.value is c:
+                # bound to a local first: every use of that local is the
+                # argument of parse_smtlib (or len())
+                nm = par.targets[0].id
+                uses = [x for x in ast.walk(fn) if isinstance(x, ast.Name)
+                        and x.id == nm and isinstance(x.ctx, ast.Load)]
+                stores = [x for x in ast.walk(fn) if isinstance(x, ast.Name)
+                          and x.id == nm and isinstance(x.ctx, ast.Store)]
+
+                def fine(u):
+                    pu = getattr(u, '_parent', None)
+                    return isinstance(pu, ast.Call) and u in pu.args and (
+                        (call_name(pu) or '').split('.')[-1] in (
+                            'parse_smtlib', 'len'))
+
+                ok = len(stores) == 1 and bool(uses) and all(
+                    fine(u) for u in uses)
+                if not ok:
+                    par = next((getattr(u, '_parent', None) for u in uses
+                                if not fine(u)), par)
+            wh = f'{cm.name}.{getattr(fn, "_qualname", "<module>")}'
+            chk.check('C08.R7', wh, c, ok,
+                      'the text of the input file is interpreted by code '
+                      'other than parse_smtlib '
+                      f'({unparse(par)[:70] if par is not None else ""}): '
+                      'a second, cruder lexer (counting or matching '
+                      'characters regardless of string literals, quoted '
+                      'symbols and comments) decides about inputs the '
+                      'reader tokenises correctly', loc=cm.loc(c),
+                      nontrivial=True)
+    chk.floor('C08.R7', 'reads of the input file', nread, 2)
+
+
 def run(tier):
     prog = Program()
     chk = Check(
@@ -899,11 +1012,14 @@ def run(tier):
             'constants)',
         ])
     chk.guard(rule_r5, chk, prog)
-    m, f, cfg, ex, top, states, table = extract_table(chk, prog)
-    chk.guard(rule_r1, chk, m, f, top, states, table)
-    chk.guard(rule_r2, chk, m, f, cfg, top, states, table)
-    chk.guard(rule_r3, chk, m, f, cfg, top, states, table)
-    chk.guard(rule_r4, chk, m, f, cfg, top, states, table)
+    chk.guard(rule_r7, chk, prog)
+    tab = chk.guard(extract_table, chk, prog)
+    if tab is not None:
+        m, f, cfg, ex, top, states, table = tab
+        chk.guard(rule_r1, chk, m, f, top, states, table)
+        chk.guard(rule_r2, chk, m, f, cfg, top, states, table)
+        chk.guard(rule_r3, chk, m, f, cfg, top, states, table)
+        chk.guard(rule_r4, chk, m, f, cfg, top, states, table)
     extra = None
     if tier == 'thorough':
         from .. import selftest
